@@ -526,12 +526,100 @@ pub fn run_listen(ctx: &Ctx) {
     }
 }
 
+/// The repository's own service binary (examples/ping under varlink::listen), built with the
+/// repository's default debug profile — where recursion costs the most stack — fed the
+/// nesting family beside a healthy neighbour.  The harness's own server is an optimised build.
+fn run_repo_service(ctx: &Ctx, bin_dir: &str) {
+    use std::os::linux::net::SocketAddrExt;
+    let name = format!("vh-c06ping-{}", std::process::id());
+    let mut child = match Command::new(format!("{}/ping", bin_dir)).arg(format!("--varlink=unix:@{}", name)).stdin(Stdio::null()).stdout(Stdio::null()).stderr(Stdio::null()).spawn() {
+        Ok(c) => c,
+        Err(e) => return ctx.inconclusive(json!({"repo_service": format!("cannot start ping: {}", e)})),
+    };
+    let connect = || -> std::io::Result<RawConn> {
+        let a = std::os::unix::net::SocketAddr::from_abstract_name(name.as_bytes())?;
+        Ok(RawConn::from_unix(std::os::unix::net::UnixStream::connect_addr(&a)?))
+    };
+    let t0 = std::time::Instant::now();
+    while connect().is_err() {
+        if t0.elapsed() > Duration::from_secs(20) {
+            let _ = child.kill();
+            let _ = child.wait();
+            return ctx.inconclusive(json!({"repo_service": "ping did not start listening within 20 s"}));
+        }
+        std::thread::sleep(Duration::from_millis(20));
+    }
+    let ping = |c: &mut RawConn, tok: &str| -> Result<(), String> {
+        c.write_all(format!("{{\"method\":\"org.example.ping.Ping\",\"parameters\":{{\"ping\":\"{}\"}}}}\0", tok).as_bytes()).map_err(|e| format!("write: {}", e))?;
+        match c.read_frame(Duration::from_secs(20)) {
+            ReadEv::Frame(f) if String::from_utf8_lossy(&f).contains(tok) => Ok(()),
+            other => Err(format!("{:?}", other)),
+        }
+    };
+    let depths: &[usize] = &[16, 40, 50, 64, 100, 110, 120, 126, 127, 128, 129, 200, 500, 10_000, 100_000];
+    'outer: for &d in depths {
+        for (shape, open, close) in [("array", "[", "]"), ("object", "{\"a\":", "}")] {
+            for balanced in [true, false] {
+                let inner = format!("{}1{}", open.repeat(d), if balanced { close.repeat(d) } else { String::new() });
+                let msg = format!("{{\"method\":\"org.example.ping.Ping\",\"parameters\":{{\"ping\":{}}}}}", inner);
+                ctx.case(Some(hash_of(&("repo-service-nesting", d, shape, balanced))));
+                ctx.count("repo_service_nesting_messages", 1);
+                let wit = |m: String| json!({"engine": "c06", "transport": "examples/ping (debug build) under varlink::listen", "operator": format!("nest-{}-{}-{}", shape, if balanced { "balanced" } else { "unclosed" }, d), "message": m});
+                let mut neighbour = match connect() {
+                    Ok(c) => c,
+                    Err(e) => {
+                        ctx.violation("c06:listen:later-connection-affected", wit(format!("cannot connect a neighbour: {}", e)));
+                        break 'outer;
+                    }
+                };
+                if let Err(e) = ping(&mut neighbour, "before") {
+                    ctx.violation("c06:listen:healthy-neighbour-affected", wit(format!("neighbour before the faulty message: {}", e)));
+                    break 'outer;
+                }
+                if let Ok(mut bad) = connect() {
+                    let _ = bad.write_all(msg.as_bytes());
+                    let _ = bad.write_all(&[0]);
+                    bad.shutdown_write();
+                    let (out, eof) = bad.read_to_eof(Duration::from_secs(20));
+                    // the parameter is not a string: whatever the depth, no success reply may come back
+                    if String::from_utf8_lossy(&out).contains("\"pong\"") {
+                        ctx.violation("c06:listen:reply-to-malformed-message", wit(format!("reply {}", show(&out))));
+                    }
+                    if !eof {
+                        ctx.violation("c06:listen:faulty-connection-not-closed", wit("no EOF 20 s after half-close".into()));
+                    }
+                }
+                if let Ok(Some(st)) = child.try_wait() {
+                    ctx.violation("c06:listen:server-process-died", wit(format!("the service process exited: {:?}", st)));
+                    break 'outer;
+                }
+                if let Err(e) = ping(&mut neighbour, "after") {
+                    // the process may be dying: look again before naming the symptom
+                    std::thread::sleep(Duration::from_millis(200));
+                    if let Ok(Some(st)) = child.try_wait() {
+                        ctx.violation("c06:listen:server-process-died", wit(format!("the service process exited: {:?}", st)));
+                    } else {
+                        ctx.violation("c06:listen:healthy-neighbour-affected", wit(format!("neighbour after the faulty message: {}", e)));
+                    }
+                    break 'outer;
+                }
+            }
+        }
+    }
+    let _ = child.kill();
+    let _ = child.wait();
+}
+
 pub fn main(ctx: &Ctx) -> i32 {
-    ctx.set_rule("corpus of 40 valid request streams x every byte position (quick: stride 3 on long streams) x 8 byte-level operators (truncate, bit flip, delete, duplicate, insert NUL, insert invalid UTF-8, swap, insert JSON token) + structured operators (retype/remove method, retype flags/parameters, nest 1..10^4 deep balanced and unclosed, empty message, non-object message, 70 KB/1 MiB message) + random byte strings; in memory and through listen() in a child process beside a healthy pipelining neighbour; distinct = (mutated stream hash, operator/transport); non-trivial = differs from the original and has a well-formed prefix or a complete message");
+    ctx.set_rule("corpus of 40 valid request streams x every byte position (quick: stride 3 on long streams) x 8 byte-level operators (truncate, bit flip, delete, duplicate, insert NUL, insert invalid UTF-8, swap, insert JSON token) + structured operators (retype/remove method, retype flags/parameters, nest 1..10^4 deep balanced and unclosed, empty message, non-object message, 70 KB/1 MiB message) + random byte strings; in memory and through listen() in a child process beside a healthy pipelining neighbour; the nesting family (16..10^5 deep, arrays/objects, balanced/unclosed) also against the repository's own debug-built examples/ping service; distinct = (mutated stream hash, operator/transport); non-trivial = differs from the original and has a well-formed prefix or a complete message");
     ctx.assume("malformed = not UTF-8 JSON, not an object, no string method, or a non-boolean flag; duplicate top-level keys and nesting deeper than 100 are judged by containment only (skipped_unspecified)");
     ctx.assume("expected output = replies to the well-formed prefix, obtained by running that prefix alone through the same service");
     run_memory(ctx);
     run_listen(ctx);
+    match std::env::var("VERIF_REPO_BIN") {
+        Ok(d) => run_repo_service(ctx, &d),
+        Err(_) => ctx.inconclusive(json!({"repo_service": "VERIF_REPO_BIN not set (the repository's ping binary was not built)"})),
+    }
     ctx.finish(ctx.tier.pick(20_000, 500_000))
 }
 
